@@ -374,9 +374,12 @@ def step (_ : Unit) (ws : List String) : Unit × String :=
       let _ ← schemaOf ty
       some (verdicts bs.length fun k =>
         let c := bs.take k
-        match fromRecord c with
-        | none => "h"
-        | some _ => if c.length > headerSize && rawAccepts ty (c.drop headerSize) then "a" else "r")
+        let body := c.length > headerSize && rawAccepts ty (c.drop headerSize)
+        match (fromRecord c).isSome, body with
+        | true, true => "a"
+        | true, false => "r"
+        | false, false => "h"
+        | false, true => "b")
     -- the worst-case honest Replicate of n records: the model's writer is run on it (length and a hash of every byte are
     -- compared with the real codec's), the read verdict is `honest_replicate_fits_iff` / `oversize_message_rejected`
     | ["crepl", n, b] => do
